@@ -11,10 +11,10 @@ enum { IT_DEC, IT_DECSUF, IT_DECBADSUF, IT_HEX, IT_OCT, IT_BIN, IT_MN_CHOICE, IT
 static const char * const itnames[IT__N] = { "decimal", "decimal+suffix", "decimal+unknown-suffix", "hex", "oct", "bin", "mnemonic-choice", "mnemonic-special",
     "mnemonic-bool", "mnemonic-unknown", "string", "block", "expression" };
 typedef struct {
-    int type; char text[96]; size_t len;
+    int type; char text[720]; size_t len;
     double dval; int64_t ival; int is_integer, is_plain; /* is_plain: [+-]digits[.digits] without exponent */
     int unit; double mult; int tag;
-    char payload[80]; size_t plen; /* unescaped string content / block data / raw text of the token as SCPI_Parameter reports it */
+    char payload[720]; size_t plen; /* unescaped string content / block data / raw text of the token as SCPI_Parameter reports it */
     int ws_after; /* white space between this item and the following comma / end */
 } item_t;
 
@@ -40,6 +40,17 @@ static const struct { const char * s; int tag; } sp_ok[] = { { "MIN", SCPI_NUM_M
 static const char * const mn_unknown[] = { "FOO", "MINI", "HIGHER", "ONN", "X_1", "LO" };
 static const char * const decs[] = { "0", "1", "12", "-3", "+7", "1.5", "-0.25", ".5", "2e3", "1E-2", "100", "3.", "65535", "-2147483648", "4294967295", "007" };
 
+/* zero padding of the digits: the token length of a number is not bounded (only its value is); lengths are swept around the sizes
+ * of conversion buffers a decoder may use */
+static const int pad_targets[] = { 15, 16, 17, 31, 32, 33, 63, 64, 65, 66, 67, 127, 128, 129, 254, 255, 256, 257, 300, 511, 512, 513, 640 };
+static void pad_digits(vh_rng_t * rng, char * out, size_t cap, const char * num, size_t prefix) {
+    /* num = prefix characters (sign or #H) followed by digits...: insert zeros behind the prefix up to a target length */
+    size_t L = (size_t) pad_targets[vh_below(rng, sizeof pad_targets / sizeof pad_targets[0])], n = strlen(num), z;
+    if (L <= n || L + 1 > cap) { snprintf(out, cap, "%s", num); return; }
+    z = L - n;
+    memcpy(out, num, prefix); memset(out + prefix, '0', z); memcpy(out + prefix + z, num + prefix, n - prefix + 1);
+    vh_count(L >= 256 ? "items.number_token_of_256_or_more_characters" : L >= 64 ? "items.number_token_of_64_to_255_characters" : "items.number_token_padded_below_64_characters", 1);
+}
 static void gen_item(vh_rng_t * rng, item_t * it) {
     static const int weights[IT__N] = { 30, 8, 4, 6, 3, 4, 6, 6, 4, 4, 12, 7, 6 };
     int tot = 0, r, t;
@@ -50,8 +61,9 @@ static void gen_item(vh_rng_t * rng, item_t * it) {
     it->type = t;
     switch (t) {
         case IT_DEC: case IT_DECSUF: case IT_DECBADSUF: {
-            const char * d = decs[vh_below(rng, sizeof decs / sizeof decs[0])]; char num[40];
+            const char * d = decs[vh_below(rng, sizeof decs / sizeof decs[0])]; char num[40]; static char padded[700];
             if (vh_chance(rng, 1, 3)) { snprintf(num, sizeof num, "%s%u", vh_chance(rng, 1, 4) ? "-" : "", (unsigned) vh_below(rng, 100000)); d = num; }
+            if (vh_chance(rng, 1, 10)) { pad_digits(rng, padded, sizeof padded, d, (d[0] == '-' || d[0] == '+') ? 1 : 0); d = padded; }
             it->dval = strtod(d, NULL); it->is_plain = !strpbrk(d, "eE");
             it->is_integer = !strpbrk(d, ".eE"); if (it->is_integer) it->ival = strtoll(d, NULL, 10);
             if (t == IT_DEC) snprintf(it->text, sizeof it->text, "%s", d);
@@ -89,6 +101,11 @@ static void gen_item(vh_rng_t * rng, item_t * it) {
             break;
         }
         default: { static const char * const ex[] = { "(1,2)", "(@1!2:3!4)", "(1:5)", "()", "(a+b*c)", "(@1,2,3)" }; snprintf(it->text, sizeof it->text, "%s", ex[vh_below(rng, 6)]); break; }
+    }
+    if ((t == IT_HEX || t == IT_OCT || t == IT_BIN) && vh_chance(rng, 1, 10)) {
+        static char padded[700];
+        pad_digits(rng, padded, sizeof padded, it->text, 2);
+        snprintf(it->text, sizeof it->text, "%s", padded); snprintf(it->payload, sizeof it->payload, "%s", it->text + 2); it->plen = strlen(it->payload);
     }
     if (t != IT_BLOCK) it->len = strlen(it->text);
     if (t == IT_MN_CHOICE || t == IT_MN_SPECIAL || t == IT_MN_BOOL || t == IT_MN_UNKNOWN || t == IT_EXPR) { memcpy(it->payload, it->text, it->len); it->plen = it->len; }
@@ -252,7 +269,7 @@ static void p0_run(uint64_t idx, vh_rng_t * rng) {
     }
     (void) exp_any_of;
 
-    v = vh_ctx_new(cmds, 700, 8, 128); v->log_enabled = 0; v->sigs = &sig; v->nsigs = 1;
+    v = vh_ctx_new(cmds, 4200, 8, 128); v->log_enabled = 0; v->sigs = &sig; v->nsigs = 1;
     if (active_tab) { v->ctx->units = units_b; vh_count("units.application_table", 1); }
     ret = vh_input(v, msg.p, msg.len);
     vh_eval(1);
@@ -333,7 +350,7 @@ static void p1_run(uint64_t idx, vh_rng_t * rng) {
     flush_mode = vh_chance(rng, 1, 4);
     if (!flush_mode) vh_buf_addc(&msg, '\n');
     vh_case_desc("malformed unit %s%s", vh_esc(msg.p, msg.len), flush_mode ? " + flush" : "");
-    v = vh_ctx_new(cmds, 700, 8, 128); v->log_enabled = 0; v->sigs = &sig; v->nsigs = 1;
+    v = vh_ctx_new(cmds, 4200, 8, 128); v->log_enabled = 0; v->sigs = &sig; v->nsigs = 1;
     vh_input(v, msg.p, msg.len);
     if (flush_mode) vh_input(v, NULL, 0);
     else if (v->nerrs == 0 && v->ninv == 0 && v->ctx->buffer.position > 0) {
@@ -471,7 +488,7 @@ static void p4_run(uint64_t idx, vh_rng_t * rng) {
 
 int main(int argc, char ** argv) {
     static const vh_phase_t phases[] = { { "well-formed lists x signatures", p0_count, p0_run }, { "malformed data", p1_count, p1_run }, { "input return value", p2_count, p2_run }, { "several units per message", p3_count, p3_run }, { "array readers", p4_count, p4_run } };
-    vh_require("clause.error-109"); vh_require("clause.error-108"); vh_require("clause.error-104"); vh_require("clause.error-138"); vh_require("clause.error-131");
+    vh_require("items.number_token_of_256_or_more_characters"); vh_require("items.number_token_of_64_to_255_characters"); vh_require("clause.error-109"); vh_require("clause.error-108"); vh_require("clause.error-104"); vh_require("clause.error-138"); vh_require("clause.error-131");
     vh_require("clause.error-224"); vh_require("clause.error-200"); vh_require("clause.optional_absent_silent"); vh_require("clause.item_delivered_whole");
     vh_require("clause.no_error"); vh_require("clause.malformed_gets_command_error"); vh_require("clause.return_true"); vh_require("clause.return_false");
     vh_require("clause.return_false_on_overrun"); vh_require("ws.after_item"); vh_require("clause.multi_unit_two_or_more_errors");
